@@ -1,6 +1,7 @@
 //! Verification library: reference models, generators, runner. No dependency on bnum.
 pub mod case;
 pub mod gen;
+pub mod parse_model;
 pub mod refint;
 pub mod runner;
 pub mod shadow;
